@@ -30,7 +30,7 @@ STRATS = ["error", "warning", "replace", "create_unique", "merge"]
 
 def budget(tier):
     if tier == "quick":
-        return {"runs": 2400, "wall": 50, "chunk": 8}
+        return {"runs": 2400, "wall": 120, "chunk": 8}
     return {"runs": 100000, "wall": 1500, "chunk": 8}
 
 
